@@ -65,6 +65,7 @@ def global_state():
             st[modname + ".get_encoding"] = id(getattr(m, "get_encoding", None))
         except Exception:  # noqa
             pass
+    st.update(interpreter_settings())
     st["tmp_entries"] = len(os.listdir(tempfile.gettempdir()))
     try:
         st["open_fds"] = len(os.listdir("/proc/self/fd"))
@@ -73,12 +74,73 @@ def global_state():
     return st
 
 
+def interpreter_settings():
+    """Interpreter- / library-wide settings an extraction could change and forget to put back (compared by value)."""
+    import csv
+    import decimal
+    import locale
+    import logging as _logging
+    import mimetypes
+    import socket
+    import warnings
+    out = {}
+
+    def put(k, fn):
+        try:
+            out["setting:" + k] = repr(fn())
+        except Exception:  # noqa
+            pass
+    put("sys.getrecursionlimit", sys.getrecursionlimit)
+    put("csv.field_size_limit", csv.field_size_limit)
+    put("socket.getdefaulttimeout", socket.getdefaulttimeout)
+    put("locale", lambda: locale.setlocale(locale.LC_ALL))
+    put("warnings.filters", lambda: [(f[0], getattr(f[2], "__name__", f[2]), f[4]) for f in warnings.filters])
+    put("logging.disable", lambda: _logging.root.manager.disable)
+    put("logging.root.level", lambda: _logging.root.level)
+    put("cwd", os.getcwd)
+    put("os.environ", lambda: hashlib.sha256(repr(sorted(os.environ.items())).encode()).hexdigest()[:16])
+    put("sys.path", lambda: hashlib.sha256(repr(sys.path).encode()).hexdigest()[:16])
+    put("decimal.prec", lambda: (decimal.getcontext().prec, decimal.getcontext().rounding))
+    put("mimetypes", lambda: (len(mimetypes.types_map), len(mimetypes.common_types), len(mimetypes.suffix_map), len(mimetypes.encodings_map)))
+    put("sys.settrace", lambda: sys.gettrace() is not None)
+    put("switchinterval", sys.getswitchinterval)
+    put("gc", lambda: (__import__("gc").isenabled(), __import__("gc").get_threshold()))
+    put("tempfile.tempdir", lambda: tempfile.tempdir)
+    # plain module-level settings of every third-party module that is loaded (pypdf limits, PIL switches, ...), by value
+    for name, mod in sorted(sys.modules.items()):
+        f = getattr(mod, "__file__", None) or ""
+        if "site-packages" not in f:
+            continue
+        try:
+            simple = sorted((k, repr(v)) for k, v in vars(mod).items()
+                            if not k.startswith("__") and isinstance(v, (bool, int, float, str, bytes, type(None))))
+        except Exception:  # noqa
+            continue
+        if simple:
+            out["setting:module " + name] = hashlib.sha256(repr(simple).encode()).hexdigest()[:12]
+    try:
+        from PIL import Image, ImageFile
+        put("PIL.MAX_IMAGE_PIXELS", lambda: Image.MAX_IMAGE_PIXELS)
+        put("PIL.LOAD_TRUNCATED_IMAGES", lambda: ImageFile.LOAD_TRUNCATED_IMAGES)
+    except Exception:  # noqa
+        pass
+    try:
+        from xml.etree import ElementTree as ET
+        put("ET._namespace_map", lambda: len(ET._namespace_map))
+    except Exception:  # noqa
+        pass
+    return out
+
+
 def state_diff(before, after):
     mism = []
     for k in before:
         if k in ("tmp_entries", "open_fds"):
             if after.get(k, 0) > before[k]:
                 mism.append((k, f"{before[k]} -> {after.get(k)}"))
+        elif k.startswith("setting:"):
+            if before[k] != after.get(k):
+                mism.append((k, f"{before[k][:80]} -> {str(after.get(k))[:80]}"))
         elif before[k] != after.get(k):
             mism.append((k, "function object replaced and not restored"))
     return mism
@@ -635,7 +697,7 @@ def module_snapshot(mod):
     st = global_state()
     st.pop("tmp_entries", None)
     st.pop("open_fds", None)
-    snap.update({"<" + k + ">": v for k, v in st.items()})
+    snap.update({("<" + k + ">" if not k.startswith("setting:") else k): v for k, v in st.items()})
     return snap
 
 
@@ -794,6 +856,22 @@ def preimport():
     for name in ("pypdf", "pypdf._page", "olefile", "xlrd", "openpyxl", "defusedxml.ElementTree", "PIL.Image", "email.parser", "mailbox", "tarfile", "lzma", "bz2"):
         try:
             importlib.import_module(name)
+        except Exception:  # noqa
+            pass
+    # every submodule of the third-party packages in use, so that their module-level settings exist in the "before" snapshot
+    tops = sorted({n.split(".")[0] for n, m in list(sys.modules.items()) if "site-packages" in (getattr(m, "__file__", None) or "")})
+    for top in tops:
+        pkg = sys.modules.get(top)
+        if pkg is None or not hasattr(pkg, "__path__") or top in ("pip", "setuptools", "pkg_resources", "_pytest", "pytest"):
+            continue
+        try:
+            for m in pkgutil.walk_packages(pkg.__path__, top + "."):
+                if any(part.startswith("test") or part in ("__main__", "conftest") for part in m.name.split(".")):
+                    continue
+                try:
+                    importlib.import_module(m.name)
+                except BaseException:  # noqa
+                    pass
         except Exception:  # noqa
             pass
 
